@@ -196,6 +196,8 @@ class ConcreteInfer(IM.InferScenario):
             if meth == "items":
                 return K(tuple(ps))
             return K(tuple(p.v[0] if meth == "keys" else p.v[1] for p in ps))
+        if meth == "rewrite" and isinstance(fval, R) and fval.kind == "rwobj" and fval.fields["cls"] == K("RewriteAnonymousTypedDictToDict") and len(args) == 1:
+            return td_to_dict(st.freeze(args[0]))
         if meth == "rewrite" and isinstance(call.func.value, ast.Call) and len(args) == 1:  # type: ignore[attr-defined]
             from mtsa.index import dotted as _d
             if (_d(call.func.value.func) or "").endswith("RewriteAnonymousTypedDictToDict"):  # type: ignore[attr-defined]
